@@ -82,7 +82,8 @@ def entryOf (o : Obj) (addr : Nat) : Except Err Index.Entry :=
   | some b, some e =>
     match b, e with
     | .int b, .int e => .ok { b := b, e := e, oid := addr }
-    | _, _ => .error .typeError            -- non-int offsets cannot be ordered against int ones
+    | .none, .none => .ok { b := Index.NONE_KEY, e := Index.NONE_KEY, oid := addr }
+    | _, _ => .error .typeError            -- other combinations are not modelled
   | _, _ => .ok { b := Index.MAXSIZE, e := Index.MAXSIZE, oid := addr }
 
 /-- `Cas.add(annotation, keep_id)` -/
@@ -99,6 +100,9 @@ def add (ts : TS.TypeSystem) (cas : Nat) (c : Cas) (hp : Heap) (h : Handle) (add
   let slots := if (alistGet? o.slots "sofa").isSome then alistSet o.slots "sofa" (.sofa cas h.view) else o.slots
   let o' : Obj := { o with xid := some x, slots := slots }
   let e ← entryOf o' addr
+  -- `None < int` raises `TypeError` inside the sorted insertion
+  if (Index.get v.idx o.ty).any (fun x => decide (x.b = Index.NONE_KEY) != decide (e.b = Index.NONE_KEY)) then
+    throw .typeError
   let v' : View := { v with idx := Index.add v.idx o.ty e }
   pure (setViewRec c1 h.view v', hp.set addr o')
 
@@ -123,13 +127,18 @@ def selectCovered (ts : TS.TypeSystem) (c : Cas) (h : Handle) (tyName : String) 
     Except Err (List Index.Entry) := do
   let t ← TS.getType ts tyName
   let v ← cur c h
-  pure (Index.selectCoveredNames v.idx (TS.descendantsOf ts t.name) cb ce)
+  let names := TS.descendantsOf ts t.name
+  -- comparing a `None` offset with the span raises `TypeError`
+  if names.any (fun n => (Index.get v.idx n).any (fun x => x.b = Index.NONE_KEY)) then throw .typeError
+  pure (Index.selectCoveredNames v.idx names cb ce)
 
 def selectCovering (ts : TS.TypeSystem) (c : Cas) (h : Handle) (tyName : String) (cb ce : Int) :
     Except Err (List Index.Entry) := do
   let t ← TS.getType ts tyName
   let v ← cur c h
-  pure (Index.selectCoveringNames v.idx (TS.descendantsOf ts t.name) cb ce)
+  let names := TS.descendantsOf ts t.name
+  if names.any (fun n => (Index.get v.idx n).any (fun x => x.b = Index.NONE_KEY)) then throw .typeError
+  pure (Index.selectCoveringNames v.idx names cb ce)
 
 def selectAll (c : Cas) (h : Handle) : Except Err (List Index.Entry) := do
   let v ← cur c h
@@ -167,6 +176,21 @@ def new (text : Option (List Nat)) (mime : Option String) : Cas :=
       match setSofaMime c1 h (some (mime.getD "text/plain")) with
       | .error _ => c1
       | .ok c2 => c2
+
+/-- `get_document_annotation()`: the first selected instance of the DocumentAnnotation subtree if there
+    is one (which one, with several subtypes indexed, follows set order in the code: the model takes the
+    first in descendant order), else a new instance is created and indexed -/
+def getDocumentAnnotation (ts : TS.TypeSystem) (tsIdx cas : Nat) (c : Cas) (hp : Heap) (h : Handle) :
+    Except Err (Cas × Heap × Nat) := do
+  let sel ← select ts c h TS.DOCUMENT_ANNOTATION
+  match sel with
+  | e :: _ => pure (c, hp, e.oid)
+  | [] =>
+    let t ← TS.getType ts TS.DOCUMENT_ANNOTATION
+    let o ← construct t tsIdx none []
+    let addr := hp.length
+    let (c', hp') ← add ts cas c (hp ++ [o]) h addr true
+    pure (c', hp', addr)
 
 /-- `FeatureStructure.get_covered_text()` for non-negative int offsets -/
 def coveredText (cass : List Cas) (hp : Heap) (addr : Nat) : Except Err (Option (List Nat)) := do
